@@ -547,6 +547,67 @@ def rule_persist(ctx):
                             and s and s[-1][0] == "COMMIT" for s in seqs)
     ctx.check("C17.persist", ok, w, "saveIdentity effects: " + "; ".join(sorted(c13.fmt_seq(s) for s in seqs)),
               "the pin must be inserted as (recipient_id, public_key) and committed on every path", "pin inserted and committed")
+    # nothing but the pin operations themselves removes or rewrites a pin: every other DELETE / UPDATE of the pin table
+    # (the constructor's housekeeping, the local identity's own row) has a WHERE clause that is false for a pin row - a
+    # row as saveIdentity writes it: the recipient and the key set, every other column NULL - decided in SQL's
+    # three-valued logic.  A statement keyed by the recipient it was called for is a pin operation.
+    from .. import sql as _sql
+    pin_cols = None
+    for (c, name, n, st, params) in model.stmts:
+        if c is iks and name == "saveIdentity" and st.verb == "INSERT":
+            pin_cols = list(st.columns)
+            pin_table = st.table
+    if pin_cols is None or pin_table not in model.tables:
+        ctx.undecided("C17.persist", w, "pin row shape", "saveIdentity's INSERT / the table definition was not found")
+    else:
+        allcols = [x.split()[0] for x in model.tables[pin_table].columns] if model.tables[pin_table].columns else []
+        row = {col: None for col in allcols}
+        for col in pin_cols:
+            row[col] = ("sym", col)
+        n_other = 0
+        # rows the store writes with a literal key (the local identity's own row, recipient_id -1) are not pins: a pin's
+        # key differs from those literals
+        distinct = {}
+        for (c, name, n, st, params) in model.stmts:
+            if st.table == pin_table and st.verb == "INSERT" and name != "saveIdentity":
+                for col, v in zip(st.columns, st.values):
+                    try:
+                        distinct.setdefault(col, set()).add(int(v))
+                    except (TypeError, ValueError):
+                        pass
+        for (c, name, n, st, params) in model.stmts:
+            if st.table != pin_table or st.verb not in ("DELETE", "UPDATE"):
+                continue
+            fn_ = model.fns.get((c.qname, name), c.methods.get(name))
+            ps_ = params_of(fn_) if fn_ is not None else []
+            elts = list(params.elts) if isinstance(params, (ast.Tuple, ast.List)) else []
+            nset = len([v for v in st.set_values if v == "?"]) if st.verb == "UPDATE" else 0
+            welts = elts[nset:]
+            bound = []
+            keyed = False
+            k_ = 0
+            for (col, op, rhs) in st.where:
+                if rhs.strip() != "?":
+                    continue
+                e_ = welts[k_] if k_ < len(welts) else None
+                k_ += 1
+                if isinstance(e_, ast.Constant):
+                    bound.append(e_.value)
+                elif isinstance(e_, ast.Name) and e_.id in ps_:
+                    bound.append(("sym", col) if col in pin_cols else ("unk",))     # the caller's value: may equal the pin's
+                    keyed = keyed or (col in pin_cols and op.strip() == "=")
+                else:
+                    bound.append(("unk",))
+            if keyed:
+                continue        # removes / rewrites the pin of the recipient the caller names: a pin operation (C17.guard decides who may call it)
+            n_other += 1
+            verdict = _sql.eval_where(st, row, bound, distinct)
+            ww = where(c.relpath, c.name + "." + name, n.line)
+            ctx.check("C17.persist", (verdict is False) if verdict is not None else None, ww, st.text,
+                      "this statement %s every remembered contact key: its WHERE clause is true for a row as saveIdentity writes it (%s set, every other column NULL)%s" % (
+                          "deletes" if st.verb == "DELETE" else "rewrites", ", ".join(pin_cols), " - and it runs whenever the store is constructed, i.e. at every start of the process" if name == "__init__" else ""),
+                      "does not match a pin row")
+        ctx.units["C17.other_pin_table_writes"] = n_other
     # facade delegates both operations to the identity store
     fac = ctx.repo.cls(c13.FACADE[0], c13.FACADE[1])
     for name in ("saveIdentity", "isTrustedIdentity"):
